@@ -274,6 +274,27 @@ fn check_int_positions(lit: &str) -> Option<String> {
         })
       }),
     ));
+    // the lower and the upper occurrence bound on their own: `n*`, `*n`, `0*n` (a bound that is dropped is
+    // reported as "not found where expected")
+    fn occ_of(c: &CDDL) -> Option<(Option<usize>, Option<usize>)> {
+      first_t1(c).and_then(|t| match &t.type2 {
+        Type2::Array { group, .. } => group.group_choices.first().and_then(|gc| gc.group_entries.first()).and_then(|(ge, _)| {
+          let o = match ge {
+            GroupEntry::TypeGroupname { ge, .. } => ge.occur.as_ref(),
+            GroupEntry::ValueMemberKey { ge, .. } => ge.occur.as_ref(),
+            _ => None,
+          }?;
+          match o.occur {
+            Occur::Exact { lower, upper, .. } => Some((lower, upper)),
+            _ => None,
+          }
+        }),
+        _ => None,
+      })
+    }
+    cases.push((format!("a = [{}* int]\n", lit), usz, Box::new(|c| occ_of(c).and_then(|(l, _)| l).map(|v| v as i128))));
+    cases.push((format!("a = [*{} int]\n", lit), usz, Box::new(|c| occ_of(c).and_then(|(_, u)| u).map(|v| v as i128))));
+    cases.push((format!("a = [0*{} int]\n", lit), usz, Box::new(|c| occ_of(c).and_then(|(_, u)| u).map(|v| v as i128))));
     cases.push((
       format!("a = {{ {} => int }}\n", lit),
       usz,
